@@ -5,10 +5,12 @@
 (* parseWithRecovery), over an abstract token stream.                      *)
 (*                                                                         *)
 (* An input is a list of segments separated by semicolons.  A segment is   *)
-(* a statement: its first token is a statement-starting keyword, the       *)
-(* others are not (the side condition of property C12), and it is either   *)
-(* well-formed (strict parsing of it alone succeeds) or malformed.  Stray  *)
-(* semicolons may precede, follow or double the separators.                *)
+(* a statement: its first token may or may not be one of the keywords the  *)
+(* recovery loop resynchronises on (SELECT, INSERT, ... but not SHOW,      *)
+(* DESCRIBE, ..., nor a corrupted first token), the other tokens never are *)
+(* (the side condition of property C12), and it is either well-formed      *)
+(* (strict parsing of it alone succeeds) or malformed.  Stray semicolons   *)
+(* may precede, follow or double the separators.                           *)
 (*                                                                         *)
 (* parseStatement is abstract: on a well-formed segment it consumes the    *)
 (* whole segment; on a malformed one it consumes j tokens of the segment   *)
@@ -29,7 +31,7 @@ CONSTANTS MaxSegs,     \* segments per input
           Emit
 
 \* ---- inputs ---------------------------------------------------------------
-Seg == [good : BOOLEAN, len : 1..MaxLen]
+Seg == [good : BOOLEAN, len : 1..MaxLen, kw : BOOLEAN]
 Inputs == [segs : UNION {[1..n -> Seg] : n \in 0..MaxSegs},
            lead : 0..1,            \* stray semicolons before the first statement
            dbl  : BOOLEAN,         \* separators are doubled (";;")
@@ -40,7 +42,7 @@ RECURSIVE Flatten(_, _)
 Flatten(in, i) ==
     IF i > Len(in.segs) THEN <<>>
     ELSE LET s == in.segs[i]
-             body == [k \in 1..s.len |-> [t |-> IF k = 1 THEN "K" ELSE "x", seg |-> i]]
+             body == [k \in 1..s.len |-> [t |-> IF k = 1 /\ s.kw THEN "K" ELSE "x", seg |-> i]]
              sep == IF i < Len(in.segs) THEN (IF in.dbl THEN <<[t |-> ";", seg |-> 0], [t |-> ";", seg |-> 0]>> ELSE <<[t |-> ";", seg |-> 0]>>)
                     ELSE [k \in 1..in.trail |-> [t |-> ";", seg |-> 0]]
          IN body \o sep \o Flatten(in, i + 1)
